@@ -134,6 +134,11 @@ def judge(rec, case, files, top, ref, pkg) -> tuple | None:  # noqa: ANN001, C90
                 continue
             if got != want:
                 fid, tried = classify_target(gmod.path, n, got, want, files)
+                if fid is None and m.is_alias:
+                    tried = [*tried, "C05-early-resolution-stale-target"]
+                    fresh = relookup_by_path(pkg.modules_collection, m)
+                    if fresh is not None and fresh.path == want["id"]:
+                        fid = "C05-early-resolution-stale-target"
                 return (f"{gmod.path}.{n} refers to a different definition", got, want, fid, tried)
             if m.is_alias:
                 rec.count("alias_presentations_checked")
@@ -198,6 +203,24 @@ def implicit_submodule_names(files: dict, ref: dict) -> dict[str, set[str]]:
                     implicit[mod].add(n)
                     changed = True
     return implicit
+
+
+def relookup_by_path(collection, alias):  # noqa: ANN001, ANN201
+    """Follow an alias chain by *paths*, asking the collection again at every hop (ignores the cached `_target`s)."""
+    seen = set()
+    path = alias.target_path
+    for _ in range(50):
+        if path in seen:
+            return None
+        seen.add(path)
+        try:
+            obj = collection.get_member(path)
+        except Exception:  # noqa: BLE001
+            return None
+        if not obj.is_alias:
+            return obj
+        path = obj.target_path
+    return None
 
 
 def check_presentation(alias, final):  # noqa: ANN001, ANN201
